@@ -26,11 +26,14 @@ type FuncInfo struct {
 	Sig  *types.Signature
 }
 
+var ghostNameRe = regexp.MustCompile(`ghost\((\w+),`)
+
 type Clause struct {
 	Label string
 	Src   string
 	Expr  ast.Expr
 	Try   bool // attempted, reported, never alarmed on
+	GhostDef bool // definition of a ghost update: assumed at call sites, no obligation
 	Line  int
 	Using      []string // `using` list: the only lemmas/axioms in this clause's query
 	UsingGiven bool
@@ -56,6 +59,7 @@ type Contract struct {
 	Ensures      []Clause
 	Assigns      []Clause
 	AssignsGiven bool
+	GhostMods    []string // ghost maps named in `ensures ghostdef` clauses (part of the frame)
 	Loops        map[int]*LoopSpec
 	ParamNames   []string // explicit names from the key line (lib contracts)
 	ResultNames  []string
@@ -433,6 +437,13 @@ func (e *Engine) parseContracts(body, pkgPath, file string, line0 int) error {
 			cl.Try = true
 			txt = strings.TrimSpace(txt[4:])
 		}
+		if strings.HasPrefix(txt, "ghostdef ") {
+			// `ensures ghostdef label: e` — e speaks about ghost state only and DEFINES how this
+			// function moves it (the body contains no ghost code that could be checked against
+			// it): assumed by callers, not an obligation of the function, listed as an assumption
+			cl.GhostDef = true
+			txt = strings.TrimSpace(txt[9:])
+		}
 		if m := usingRe.FindStringSubmatch(txt); m != nil {
 			// `label using lemma1, axiom2: expr` — only the named lemmas/axioms are part of this
 			// clause's proof obligation (the others are left out of the query)
@@ -691,6 +702,12 @@ func (e *Engine) parseContracts(body, pkgPath, file string, line0 int) error {
 					cl.Label = fmt.Sprint(len(cur.Ensures) + 1)
 				}
 				cur.Ensures = append(cur.Ensures, cl)
+				if cl.GhostDef {
+					// the ghost cells a definition speaks about belong to the function's frame
+					for _, m := range ghostNameRe.FindAllStringSubmatch(cl.Src, -1) {
+						cur.GhostMods = append(cur.GhostMods, m[1])
+					}
+				}
 			case "assigns":
 				cur.AssignsGiven = true
 				if strings.TrimSpace(rc.text) != "" && strings.TrimSpace(rc.text) != "nothing" {
